@@ -26,16 +26,21 @@ def main(argv: list[str]) -> int:
             ids = [i for i in ids if any(a in i for a in argv[1:])]
         missed = 0
         for sid in ids:
-            r = subprocess.run([os.path.join(v, "tools", "try_seeded.py"), sid, sid[:3]], capture_output=True, text=True)
+            prop = sid[:3]
+            try:
+                prop = json.load(open(os.path.join(v, "seeded", sid, "meta.json")))["breaks"][0]
+            except Exception:  # noqa: BLE001
+                pass
+            r = subprocess.run([os.path.join(v, "tools", "try_seeded.py"), sid, prop], capture_output=True, text=True)
             line = next((ln for ln in r.stdout.splitlines() if " vs " in ln), r.stdout[-200:] + r.stderr[-300:])
             print(line[:260], flush=True)
             try:
                 res = json.load(open(os.path.join(v, "seeded", sid, "check_results.json")))
-                if not res.get(sid[:3], {}).get("caught"):
+                if not res.get(prop, {}).get("caught"):
                     missed += 1
             except Exception:  # noqa: BLE001
                 missed += 1
-        print(f"seeded: {len(ids) - missed}/{len(ids)} changes caught by the check of their own property")
+        print(f"seeded: {len(ids) - missed}/{len(ids)} changes caught by the check of the property they break (meta.json: breaks[0])")
         return 1 if missed else 0
     print(f"unknown selftest {what}", file=sys.stderr)
     return 2
